@@ -764,22 +764,28 @@ spiftool_version_compare(spif_charptr_t v1, spif_charptr_t v2)
                 }
             }
         } else if (isdigit(*v1) && isdigit(*v2)) {
-            spif_charptr_t p1 = buff1, p2 = buff2;
-            spif_int32_t ival1, ival2;
+            spif_charptr_t p1, p2;
+            size_t len1, len2;
             spif_cmp_t c;
 
-            /* Compare numbers.  First, copy each number into buffers. */
-            for (; *v1 && isdigit(*v1); v1++) if (p1 < buff1 + sizeof(buff1) - 1) *p1++ = *v1;
-            for (; *v2 && isdigit(*v2); v2++) if (p2 < buff2 + sizeof(buff2) - 1) *p2++ = *v2;
-            *p1 = *p2 = 0;
+            /* Compare numbers digit by digit so that no value is too large.
+               Leading zeros do not count; then find the end of each number. */
+            for (; *v1 == '0'; v1++) ;
+            for (; *v2 == '0'; v2++) ;
+            for (p1 = v1; *v1 && isdigit(*v1); v1++) ;
+            for (p2 = v2; *v2 && isdigit(*v2); v2++) ;
+            len1 = (size_t) (v1 - p1);
+            len2 = (size_t) (v2 - p2);
+            D_CONF(("     -> Comparing as integers with %lu vs. %lu significant digits\n",
+                    (unsigned long) len1, (unsigned long) len2));
 
-            /* Convert the strings into actual integers. */
-            ival1 = (spif_int32_t) strtol((char *) buff1, (char **) NULL, 10);
-            ival2 = (spif_int32_t) strtol((char *) buff2, (char **) NULL, 10);
-            D_CONF(("     -> Comparing as integers %d vs. %d\n", (int) ival1, (int) ival2));
-
-            /* Compare the integers and return if not equal. */
-            c = SPIF_CMP_FROM_INT(ival1 - ival2);
+            /* More digits mean a larger number; equally many are compared left to
+               right.  Return if not equal. */
+            if (len1 != len2) {
+                c = ((len1 < len2) ? (SPIF_CMP_LESS) : (SPIF_CMP_GREATER));
+            } else {
+                c = SPIF_CMP_FROM_INT(strncmp((char *) p1, (char *) p2, len1));
+            }
             if (!SPIF_CMP_IS_EQUAL(c)) {
                 D_CONF(("     -> %d\n", (int) c));
                 return c;
